@@ -327,7 +327,15 @@ func runBlock(r *simk.Run, f focus) *simk.Violation {
 					}
 				}
 				if nAct <= 17 && c.Bool(f.txFaults*0.2) {
-					switch c.Intn(3) {
+					switch c.Intn(6) {
+					case 3:
+						sa.End = 0 // retired at time 0 (only -1 means "no bound")
+						g.Note += "action-retired-at-zero "
+					case 4:
+						sa.Start, sa.End = 0, 0
+						g.Note += "action-active-only-at-zero "
+					case 5:
+						sa.Start = 0 // active from time 0 on: active
 					case 0:
 						sa.Start = blkTS + 1
 						g.Note += "action-not-yet-active "
